@@ -405,7 +405,8 @@ impl ToOrdinal {
             } else {
                 definitions.get_vec("NumbersOrdinalFractionalOnes")?
             };
-            let number_as_int: usize = number.parse().unwrap(); // already verified it is only digits
+            // only digits at this point, but there might be none at all (everything was a block separator) or too many for a usize
+            let number_as_int: usize = number.parse().ok()?;
             if number_as_int < words.len() {
                 // use the words associated with this irregular pattern.
                 return Some( words[number_as_int].clone() );
